@@ -109,7 +109,7 @@ theorem removeWhilePossible_limits : ∀ (f : Nat) (c : Curve) (x : Rat) (tol : 
 
 /-- **C14: `knot_clean([x])` is idempotent** for every curve on a well-formed knot vector, every interior value `x`
 and every tolerance. -/
-theorem C14_knotClean_single_idempotent' (c : Curve) (x : Rat) (tol : Rat) (hwf : WF c.kv.v c.kv.deg)
+theorem C14_knotClean_idempotent_one_knot (c : Curve) (x : Rat) (tol : Rat) (hwf : WF c.kv.v c.kv.deg)
     (hx : x ≠ c.kv.umin ∧ x ≠ c.kv.umax) :
     Curve.knotClean (Curve.knotClean c (some [x]) tol) (some [x]) tol = Curve.knotClean c (some [x]) tol := by
   apply C14_knotClean_single_idempotent c x tol hx
